@@ -711,3 +711,13 @@ Proof.
   - intros o s. rewrite rebuild_get by exact HA.
     destruct (get ordNN (allow st) (o, s)); reflexivity.
 Qed.
+
+(* the whole life of a token that was once a pre-0.14 one: any history, the upgrade, any history *)
+Theorem lifecycle19 m st cs1 blk sender cs2 : instantiate m = Ok st ->
+  exists st2, step (downgrade (run st cs1)) blk sender Migrate = Ok (st2, []) /\ Inv19 (run st2 cs2).
+Proof.
+  intros H. destruct (reachable_inv19 m st cs1 H) as (HA & _).
+  destruct (migrate_legacy_inv19 (run st cs1) blk sender HA) as (st2 & Hm & Hi).
+  exists st2. split; [exact Hm|]. apply run_invariant; [|exact Hi].
+  intros. eapply step_inv19; eassumption.
+Qed.
